@@ -73,6 +73,10 @@ def build_and_audit(prop, tier, skip=False):
     if skip or not os.path.exists(props_file):
         return res
     names = theorem_names(props_file)
+    extra_files = [os.path.join(LEAN_DIR, "SCModel", "Props", f"{x}.lean") for x in EXTRA_FILES.get(prop, [])]
+    extra_files = [f for f in extra_files if os.path.exists(f)]
+    for f in extra_files:
+        names += theorem_names(f)
     tie_file = os.path.join(LEAN_DIR, "SCModel", "Props", "Tie.lean")
     fh = lock()
     try:
@@ -84,7 +88,8 @@ def build_and_audit(prop, tier, skip=False):
             res["translator"] = extract_tables.regenerate()
         except Exception as exc:  # noqa: BLE001
             res["translator"] = {"error": repr(exc)}
-        targets = [f"SCModel.Props.{prop}"]
+        targets = [f"SCModel.Props.{prop}"] + [f"SCModel.Props.{x}" for x in EXTRA_FILES.get(prop, [])
+                                               if os.path.exists(os.path.join(LEAN_DIR, "SCModel", "Props", f"{x}.lean"))]
         tie_names = []
         if os.path.exists(tie_file) and prop in tie_props():
             targets.append("SCModel.Props.Tie")
@@ -100,7 +105,10 @@ def build_and_audit(prop, tier, skip=False):
                 build_ok, tie_ok = True, False
         # forbidden constructs in the property's own sources
         bad = []
-        for f in source_closure(props_file):
+        closure = set(source_closure(props_file))
+        for ef in extra_files:
+            closure |= set(source_closure(ef))
+        for f in closure:
             for i, line in enumerate(strip_comments(open(f).read()).split("\n")):
                 if FORBIDDEN.search(line):
                     bad.append(f"{os.path.relpath(f, LEAN_DIR)}:{i + 1}: {line.strip()[:80]}")
@@ -108,7 +116,8 @@ def build_and_audit(prop, tier, skip=False):
         if build_ok:
             allnames = names + (tie_names if tie_ok else [])
             audit = os.path.join(LEAN_DIR, ".lake", f"audit_{prop}.lean")
-            imports = f"import SCModel.Props.{prop}\n" + ("import SCModel.Props.Tie\n" if tie_names and tie_ok else "")
+            imports = "".join(f"import {t}\n" for t in targets if not t.endswith(".Tie")) + \
+                ("import SCModel.Props.Tie\n" if tie_names and tie_ok else "")
             with open(audit, "w") as a:
                 a.write(imports + "\n".join(f"#print axioms {n}" for n in allnames) + "\n")
             rc2, out2 = run(["lake", "env", "lean", audit])
@@ -154,6 +163,9 @@ def source_closure(path, seen=None):
 def tie_props():
     return TIE_MAP.keys()
 
+
+# further proof files whose theorems belong to a property (delta-form model -> C16; second cov file -> C19)
+EXTRA_FILES = {"C16": ["Forms"], "C19": ["C19b"]}
 
 # which Tie theorems (source-regenerated tables = model tables) serve which property
 TIE_MAP = {
